@@ -88,6 +88,8 @@ def entries(tier):
     E.append(("calculate_drt[lm,model_order=7]", lambda d: pyimpspec.calculate_drt(d, method="lm", model_order=7, num_procs=1), None))
     circ = parse_cdc("R{R=60}(R{R=150}C{C=1e-5})(R{R=300}Q{Y=1e-3,n=0.9})")
     E.append(("fit_circuit", lambda d, c=None: pyimpspec.fit_circuit(c, d, method="least_squares", weight="boukamp", max_nfev=200, num_procs=1), circ))
+    # several method/weight combinations evaluated in one process: what is returned belongs to ONE of them
+    E.append(("fit_circuit[lists,serial]", lambda d, c=None: pyimpspec.fit_circuit(c, d, method=["least_squares", "nelder"], weight=["modulus", "boukamp", "unity"], max_nfev=60, num_procs=1), circ))
     E.append(("calculate_drt[mrq-fit]", lambda d, c=None: pyimpspec.calculate_drt(d, method="mrq-fit", circuit=c, max_nfev=100, num_procs=1), parse_cdc("R{R=60}(R{R=150}Q{Y=1e-5,n=0.95})(R{R=300}Q{Y=1e-3,n=0.9})")))
     if tier != "quick":
         E.append(("calculate_drt[bht]", lambda d: pyimpspec.calculate_drt(d, method="bht", num_samples=300, num_attempts=3, num_procs=1), None))
